@@ -133,7 +133,9 @@ func init() {
 				}
 			}
 			// veneer rules
-			if f[2] != "-" && f[2] != "" {
+			// (a merge_into set is kept whole: dropping one of its rules but not the `omit` of the
+			// root option would make members unreachable by construction)
+			if f[2] != "-" && f[2] != "" && !strings.Contains(f[2], "merge_into") {
 				lines := strings.Split(f[2], "\\n")
 				for i, l := range lines {
 					if !strings.HasPrefix(l, "  - ") {
